@@ -829,7 +829,7 @@ MANIFEST = {
             'with clip_inf), the four _integer_approximation clones bound scale/shift/bias '
             'identically, per-axis attributes are not read after being neutralised and are '
             'indexed by the axis selector, weights/bias are integerised before scales are read. '
-            'Closeness to within one quantisation level is not decided.',
+            'Closeness to within one quantisation level is not decided. Scale / shift keep a dtype that holds 2**shift; the explicit pad module follows the padding of each axis.',
     'note': 'Trusted: path feasibility by atom consistency; torch.nn.Module keeps bias None '
             'when constructed with bias=False.',
     'technique': 'definite-assignment / None-flow path analysis + pipeline shape recognition + '
